@@ -124,16 +124,21 @@ def _translate_type(onnx_type):
     return onnxscript.onnx_types.onnx_type_to_onnxscript_repr(onnx_type, reversible=False)
 
 
-def _translate_signature(inputs, outputs):
-    """Produce the script-functions signature."""
+def _translate_signature(inputs, outputs, rename=None):
+    """Produce the script-functions signature.
+
+    rename maps ONNX names to the python names used in the function body.
+    """
+    if rename is None:
+        rename = _cleanup_variable_name
 
     def input_sig(inp: ValueInfoProto | str):
         if isinstance(inp, ValueInfoProto):
             # GraphProto inputs/outputs are ValueInfoProto
-            return f"{_cleanup_variable_name(inp.name)}: {_translate_type(inp.type)}"
+            return f"{rename(inp.name)}: {_translate_type(inp.type)}"
 
         # FunctionProto inputs/outputs are just strings
-        return _cleanup_variable_name(inp)
+        return rename(inp)
 
     result = f"({', '.join([input_sig(x) for x in inputs])})"
     if outputs and isinstance(outputs[0], ValueInfoProto):
@@ -371,7 +376,7 @@ class _Exporter:
                 node = onnx.helper.make_node(  # noqa: TID251
                     "Constant",
                     [],
-                    [self._translate_onnx_var(init.name)],  # type: ignore[list-item]
+                    [init.name],  # translated (once) by _translate_node
                     value=init,
                 )
                 pyinit = self._translate_node(node, opsets, indent=indent)
@@ -734,7 +739,9 @@ class _Exporter:
             indent_level = 1
             indent = ""
         add(f"{indent}@script()")
-        add(f"{indent}def {function_name}{_translate_signature(graph.input, graph.output)}")
+        def_index = len(result)
+        def_indent = indent
+        add("")  # The signature: filled in below, once the body has named the values.
         indent = indent + _SINGLE_INDENT
         doc = graph.doc_string
         if doc:
@@ -745,6 +752,9 @@ class _Exporter:
         return_values = ", ".join(self._translate_onnx_var(x) for x in graph.output)
         add(f"{indent}return {return_values}")
         self._name_remappings.pop()
+        # The parameters must carry the names that the body uses for the graph inputs (rename=True).
+        signature = _translate_signature(graph.input, graph.output, self._translate_onnx_var)
+        result[def_index] = f"{def_indent}def {function_name}{signature}"
         script = "\n".join(result)
         if self.skip_initializers:
             # The script was indented to sit inside make_model, even if no initializer was large enough to be skipped.
